@@ -377,9 +377,23 @@ def worker_scenario(rng, size='quick', **over):
         return lines
     if y > 0.86:
         # two explicit dump requests separated by idle time: the second one must be served like the first
-        lines = [line.replace(f'maxdata={maxdata}', 'maxdata=1000000'), 'states', f'w {keys[0]} 5 - 5 1', 'states', 'nomodel', 'close_active', 'states',
+        # (`defer=100,300`: a request that finds the task of the first pass not yet reported as finished is deferred by
+        # that interval, not by the default hour - the waits below cover it either way)
+        lines = [line.replace(f'maxdata={maxdata}', 'maxdata=1000000') + ' defer=100,300', 'states', f'w {keys[0]} 5 - 5 1', 'states', 'nomodel', 'close_active', 'states',
                  'wait 1500', 'quiesce', 'res @alldumped', f'wait {rng.choice([300, 600])}', f'w {keys[1]} 5 - 5 2', 'states', 'close_active', 'states',
                  'wait 1500', 'quiesce', 'res @alldumped', 'alive', 'close', 'open', 'states', 'counts']
+        return lines
+    if y > 0.80:
+        # E27 shape: the dump task of the first pass has done all its work but is not finished yet (held at its very
+        # end, locks released); the next blob is closed and its dump requested right then: the request is refused by
+        # `try_run_old_blob_indexes_dump_task` and must still be carried out (deferred) once the task has ended
+        # (multi-thread runtime: the held task occupies a worker thread).  `dumpstat` waits until the worker has
+        # served the request, so that the task is really still unfinished when it is served.
+        closer = rng.choice(['close_active', 'close_active', 'close_active_bg'])
+        lines = [line.replace(f'maxdata={maxdata}', 'maxdata=1000000').replace('rt=ct', 'rt=mt') + ' defer=100,300', 'states',
+                 f'w {keys[0]} 5 - 10 1', 'states', 'nomodel', 'fault taskend 0 index_dump_task pause:27', 'close_active', 'states',
+                 'quiesce', 'res', f'w {keys[1]} 5 - 10 2', 'states', closer, 'dumpstat', 'states', 'release 27',
+                 f'wait {rng.choice([1200, 1500])}', 'quiesce', 'res @alldumped', 'alive', 'close', 'open', 'states', 'counts']
         return lines
     if y < 0.08:
         # the worker is kept busy by a slow predicate while 1024 requests fill its queue to capacity; the writes that
